@@ -220,7 +220,9 @@ def _fidelity_once(cfg, pk):
         else:
             return {"__harness__": "simpool-fidelity", "msg": f"real pool item {i} is not the next item of any simulated worker stream (identities 1..{n_ident}); the SimPool stub does not model the real pool for {cfg['maze_ctor']} with {pk}"}
     log = core.EventLog()
-    log.add("fidelity", cfg, pk, sorted(used))
+    # (which real workers happened to serve the tasks is decided by the OS scheduler, not by the simulator: it goes into the
+    # statistics, never into the event log whose digest must be a function of the seed alone)
+    log.add("fidelity", cfg, pk, "every real item is the next item of a simulated worker stream")
     return core.ok(log, stats={"probe_real_pool_matches_simpool_streams": 1, "real_pool_workers_seen": len(used)}, nontrivial=log.digest() if len(used) >= 1 else None)
 
 
